@@ -16,13 +16,14 @@ def leaves_of(part):
 
 
 class Census:
-    __slots__ = ('slots', 'loc', 'dups', 'now', 'oper')
+    __slots__ = ('slots', 'loc', 'dups', 'now', 'oper', 'opaque')
 
     def __init__(self, model):
         self.slots = {}
         self.loc = {}
         self.dups = []
         self.oper = {}
+        self.opaque = False        # a device keeps parts somewhere this snapshot cannot see (its internals changed)
         self.now = model.env.now
         kinds = model.kinds
         for did, dev in model.devs.items():
@@ -36,7 +37,12 @@ class Census:
             if k == 'buffer':
                 s['buf'] = [x[1] for x in dev._buffer]
             elif k == 'batcher':
-                s['wip'] = dev._in_progress_batch
+                # (the batch under construction has no public accessor; if the private attribute is gone, the
+                # snapshot says so and nothing that needs it is judged)
+                if hasattr(dev, '_in_progress_batch'):
+                    s['wip'] = dev._in_progress_batch
+                else:
+                    self.opaque = True
             elif k == 'processor':
                 self.oper[did] = dev.is_operational()
             self.slots[did] = s
